@@ -34,7 +34,8 @@ def run(res, only=None):
                 "q^-1(qv) = v, (pq)v = p(qv), Mat3/Mat4::from_quat, normalize, length -- exact. non-trivial = more than two non-zero components.  "
                 "Code -> spec: q*p (both spellings) and q*v (Vec3, Vec3A) for random unit Quat/DQuat and random vectors, recorded per build; TLC expands "
                 "the Hamilton product / the sandwich q v q* into monomials and accepts iff |got - exact| <= K u sum|monomials| (K = 10 / 20).")
-    res.assumptions = ["the rotation bound is relative to the sum of the magnitudes of the monomials of q v q* (a few eps*|q|^2*|v|)"]
+    res.assumptions = ["the rotation bound is relative to the sum of the magnitudes of the monomials of q v q* (a few eps*|q|^2*|v|)",
+                       "recorded vectors have moderate exponents: the intermediate 2 (v.b) b of q*v does not overflow (the top binade of |v| is not covered, DESIGN 7.3)"]
 
 
 def replay(res, path, only=None):
